@@ -12,6 +12,7 @@ package main
 // table. No repository code is executed: the interpreter only walks syntax.
 
 import (
+	"os"
 	"fmt"
 	"go/ast"
 	"go/constant"
@@ -248,6 +249,7 @@ type TableConfig struct {
 	// then fall through to the code after the loop (default: a path ends with
 	// outcome "loop-next" at the end of the first iteration).
 	LoopsOnce bool
+	NoWiden   bool // keep the domain as given even in the thorough tier (enumerated codes)
 }
 
 // Table is a decision table.
@@ -256,6 +258,9 @@ type Table struct {
 	Unsupported []string
 	Truncated   bool
 }
+
+// wideTables is set by the thorough tier.
+var wideTables = os.Getenv("AKITA_WIDE") == "1"
 
 var pureNames = map[string]bool{
 	"Time": true, "Len": true, "Size": true, "Capacity": true, "Peek": true, "PeekIncoming": true,
@@ -337,6 +342,18 @@ func ExtractTable(p *Program, fn *types.Func, cfg TableConfig) *Table {
 	}
 	if cfg.MaxRows == 0 {
 		cfg.MaxRows = 20000
+	}
+	if wideTables && !cfg.NoWiden {
+		// thorough tier: one more value per integer quantity (catches conditions that
+		// only differ beyond the quick domain); the row budget grows with it
+		max := cfg.Domain[0]
+		for _, d := range cfg.Domain {
+			if d > max {
+				max = d
+			}
+		}
+		cfg.Domain = append(append([]int(nil), cfg.Domain...), max+1)
+		cfg.MaxRows *= 4
 	}
 	var choices, limits []int
 	for {
